@@ -9,10 +9,10 @@ Three layers, each a transliteration of a named piece of Python:
                   `getfullargspec`, i.e. positional-only and positional-or-keyword names are merged in
                   `args`; a growing dict `arg2value`.
 * `wrapper`     — `logging_wrapper` inside `log_call`: getcallargs, pop `self`, `include_args`
-                  selection, `start_action(action_type=…, **callargs)` *including* the routing of the
-                  keys `logger`, `action_type`, `_serializers` into `start_action`'s own parameters,
-                  `Action._start` overwriting the structural keys, the real call, the `result` field,
-                  `Action.finish`.
+                  selection (absent names skipped), `_start_action_with_fields(action_type, callargs)`
+                  (the bound arguments travel as a dict, so `logger`/`action_type`/`_serializers` are
+                  ordinary fields), `Action._start` overwriting the structural keys, the real call,
+                  the `result` field, `Action.finish`.
 
 Every place where Python raises is an explicit outcome; nothing is totalised. -/
 namespace LC
@@ -304,18 +304,18 @@ def theActionType (m : FnMeta) (opts : Opts) : String :=
   | some t => t
   | Option.none => m.module ++ "." ++ m.qualname
 
-/-- `callargs = {k: callargs[k] for k in include_args}` (KeyError when a key is absent) -/
-def selectArgs (ca : Dict BVal) : List String → Dict BVal → Except Exc (Dict BVal)
-  | [], acc => .ok acc
+/-- `callargs = {k: callargs[k] for k in include_args if k in callargs}` -/
+def selectArgs (ca : Dict BVal) : List String → Dict BVal → Dict BVal
+  | [], acc => acc
   | k :: ks, acc =>
     match Dict.get? ca k with
-    | Option.none => .error .keyError
+    | Option.none => selectArgs ca ks acc
     | some v => selectArgs ca ks (Dict.set acc k v)
 
 /-- `if include_args is not None: callargs = {…}` -/
-def applyInclude (opts : Opts) (ca : Dict BVal) : Except Exc (Dict BVal) :=
+def applyInclude (opts : Opts) (ca : Dict BVal) : Dict BVal :=
   match opts.includeArgs with
-  | Option.none => .ok ca
+  | Option.none => ca
   | some ks => selectArgs ca ks []
 
 /-- `Action._start`: the user fields, then the structural keys written over them. -/
@@ -327,23 +327,12 @@ def startMessage (actionType : String) (fields : Dict BVal) : Msg :=
   let f4 := Dict.set f3 "action_type" (.sys actionType)
   Dict.set f4 "task_level" (.sys "<level>")
 
-def isNone? : Option BVal → Bool
-  | Option.none => true
-  | some (.one .none) => true
-  | _ => false
-
-/-- `start_action(action_type=action_type, **callargs)`: Python first binds the call to
-`start_action(logger=None, action_type="", _serializers=None, **fields)`, then `Action.__init__`
-and `Action._start` run. -/
-def startAction (actionType : String) (callargs : Dict BVal) : Except Exc Msg :=
-  if Dict.has callargs "action_type" then .error .typeError     -- got multiple values for keyword argument
-  else
-    let logger := Dict.get? callargs "logger"
-    let sers := Dict.get? callargs "_serializers"
-    let fields := (Dict.del (Dict.del callargs "logger") "_serializers")
-    if ¬ isNone? sers then .error .attributeError               -- self._serializers.start
-    else if ¬ isNone? logger then .error .attributeError        -- self._logger.write
-    else .ok (startMessage actionType fields)
+/-- `_start_action_with_fields(action_type, fields)`: a fresh top-level `Action` (or a child of the
+current one) with the default logger and no serializers, then `Action._start(fields)`.  The bound
+arguments arrive as a dictionary, so none of them is taken for a parameter of `start_action`; nothing
+here can raise (logging itself does not raise: C07). -/
+def startActionWithFields (actionType : String) (fields : Dict BVal) : Msg :=
+  startMessage actionType fields
 
 /-- `Action.finish` as reached from `__exit__` -/
 def endMessage (actionType : String) (opts : Opts) : Outcome → Msg
@@ -373,14 +362,10 @@ def wrapper (m : FnMeta) (sig : Sig) (opts : Opts) (f : Body) (pos : List Val) (
   | .error _ => ⟨[], .raised .typeError⟩
   | .ok ca0 =>
     let ca1 := Dict.del ca0 "self"
-    match applyInclude opts ca1 with
-    | .error e => ⟨[], .raised e⟩
-    | .ok ca2 =>
-      match startAction (theActionType m opts) ca2 with
-      | .error e => ⟨[], .raised e⟩
-      | .ok start =>
-        let r := callDirect sig f pos kw
-        ⟨[start, endMessage (theActionType m opts) opts r], r⟩
+    let ca2 := applyInclude opts ca1
+    let start := startActionWithFields (theActionType m opts) ca2
+    let r := callDirect sig f pos kw
+    ⟨[start, endMessage (theActionType m opts) opts r], r⟩
 
 /-! ## The outer function generated by `boltons.funcutils.wraps`
 
@@ -435,19 +420,11 @@ def decorated (m : FnMeta) (sig : Sig) (opts : Opts) (f : Body) (pos : List Val)
 
 /-! ## Predicates used as hypotheses of the partial theorems -/
 
-def collisionNames : List String := ["logger", "action_type", "_serializers"]
+/-- the keys `Action._start` writes itself, over whatever argument has the same name -/
 def structuralNames : List String := ["action_status", "timestamp", "task_uuid", "action_type", "task_level"]
 
-/-- no parameter is called like one of `start_action`'s own keyword parameters -/
-def Sig.noCollision (sig : Sig) : Bool := sig.all fun p => !collisionNames.contains p.name
-/-- … nor like a key `Action._start` writes itself -/
+/-- no parameter is called like a key `Action._start` writes itself -/
 def Sig.noStructural (sig : Sig) : Bool := sig.all fun p => !structuralNames.contains p.name
-
-/-- `include_args`, when given, names parameters other than `self` -/
-def Opts.includeOK (sig : Sig) (opts : Opts) : Bool :=
-  match opts.includeArgs with
-  | Option.none => true
-  | some ks => ks.all fun k => sig.names.contains k && k != "self"
 
 def sameMap (g b : Dict BVal) : Bool :=
   g.all (fun e => Dict.get? b e.1 == some e.2) && b.all (fun e => Dict.get? g e.1 == some e.2)
